@@ -76,7 +76,8 @@ def charOfCode (v : Nat) : Except EscErr Char :=
 
 def isSkippedWs (c : Char) : Bool := c = ' ' || c = '\t' || c = '\n' || c = '\r'
 
-/-- output element: in pattern mode an unescaped `*` is the wildcard -/
+/-- output element: in pattern mode every `Ok('*')` the callback receives is the wildcard — a bare `*`, but also
+`\x2a` and `\u{2a}` (`to_pattern`: `Ok(c) => if c == '*' { Wildcard }`); only `\*` gives a literal star -/
 def elemOf (pat : Bool) (c : Char) : PatElem := if pat && c = '*' then .star else .char c
 
 mutual
@@ -113,7 +114,7 @@ def unescapeEsc (pat : Bool) : List Char → Except EscErr (List PatElem)
             match hexVal lo with
             | none => .error .InvalidCharInHexEscape
             | some l =>
-              if h * 16 + l < 128 then (unescapeGo pat rest2).map (.char (Char.ofNat (h * 16 + l)) :: ·)
+              if h * 16 + l < 128 then (unescapeGo pat rest2).map (elemOf pat (Char.ofNat (h * 16 + l)) :: ·)
               else .error .OutOfRangeHexEscape
     else if c = 'u' then
       match rest with
@@ -138,7 +139,7 @@ def unescapeUni (pat : Bool) (value nd : Nat) : List Char → Except EscErr (Lis
       if nd > 6 then .error .OverlongUnicodeEscape
       else match charOfCode value with
         | .error e => .error e
-        | .ok ch => (unescapeGo pat rest).map (.char ch :: ·)
+        | .ok ch => (unescapeGo pat rest).map (elemOf pat ch :: ·)
     else match hexVal c with
       | none => .error .InvalidCharInUnicodeEscape
       | some d => if nd + 1 > 6 then unescapeUni pat value (nd + 1) rest else unescapeUni pat (value * 16 + d) (nd + 1) rest
